@@ -134,7 +134,7 @@ def stepLib (st : St) (toks : List String) : Option (St × String) :=
   | ["create", lay, agg, xff] => do
     let lay ← parseLay lay; let agg ← agg.toNat?; let xff ← natOfHex xff
     match st.w.disk with
-    | some _ => return (st, "err exists")
+    | some _ => return ({ st with w := { st.w with h := none } }, "err exists")
     | none =>
       match createHandle o agg (UInt32.ofNat xff) lay with
       | .ok (disk, h) => return ({ st with w := ⟨some disk, some h⟩ }, "ok")
@@ -233,6 +233,11 @@ def stepCodec (toks : List String) : Option String :=
     let lay ← parseLay lay; let agg ← agg.toNat?; let xff ← natOfHex xff
     match newHeader o agg (UInt32.ofNat xff) lay with
     | .ok h => return s!"ok {headerStr h}"
+    | .error e => return faultStr e
+  | ["newheaderhex", lay, agg, xff] => do
+    let lay ← parseLay lay; let agg ← agg.toNat?; let xff ← natOfHex xff
+    match newHeader o agg (UInt32.ofNat xff) lay with
+    | .ok h => return s!"ok {hexOfBytes (encHeader h)}"
     | .error e => return faultStr e
   | ["openbytes", hex] => do
     let b ← bytesOfHex hex
